@@ -946,6 +946,10 @@ impl<'a> Gen<'a> {
                 s.offset = Some(self.rng.below(9) as u64);
             }
             self.text_level_extras(&mut s);
+        } else if self.cfg.sqlite_like() && self.rng.chance(1, 10) {
+            // SQLite has no locking clause: whatever form the builder is given, nothing is rendered
+            let of = if self.rng.coin() { vec!["t1".to_string()] } else { vec![] };
+            s.lock = Some(Lock { kind: *self.rng.pick(&[LockKind::Update, LockKind::Share]), of, nowait: if self.rng.coin() { Some(self.rng.coin()) } else { None } });
         }
         s.with = with;
         self.ctes = saved_ctes;
